@@ -3,6 +3,7 @@ import re
 
 from analysis.facts import strip_generics
 from analysis.guards import dominating_conditions, has_cond
+from . import C08 as _C08
 
 EXPLANATION = (
     "Decided: (1) store/lookup hash agreement — rule locations and request host labels are hashed with "
@@ -35,6 +36,11 @@ def check(run):
         run.guard("C16.3.populate-before-prune", cfg, lambda: rule_order(run, F, cfg))
         run.guard("C16.4.storing", cfg, lambda: rule_store(run, F, cfg))
         run.guard("C16.5.generichide", cfg, lambda: rule_generichide(run, F, cfg))
+        b = run.borrow("C08", why="per-hostname cosmetic rules and exceptions must survive serialize/deserialize")
+        run.guard("C16.via.C08.3.legacy-bijection", cfg, lambda: _C08.rule_legacy(b, F, cfg))
+        b2 = run.borrow("C08", only=r"cosmetic_filter_cache::(HostnameRuleDb|CosmeticFilterCache)\.(specific_rules|misc_generic_selectors|hide|unhide|inject_script|uninject_script|procedural_action|procedural_action_exception|style|unstyle|remove|unremove)",
+                        why="per-hostname cosmetic state must be written and restored field by field")
+        run.guard("C16.via.C08.1.state-coverage", cfg, lambda: _C08.rule_coverage(b2, F, cfg))
 
 
 def rule_hash(run, F, cfg):
